@@ -59,6 +59,12 @@ impl Prop for C07 {
                 }
             }
         }
+        // larger groups: t = n = 20 and (40, 2) (ed448: 12 / 20)
+        for suite in REAL_SUITES {
+            let (a, b) = if suite == "ed448" { (12u16, 20u16) } else { (20u16, 40u16) };
+            out.push(serde_json::to_value(Case { suite: suite.to_string(), n: a, t: a, idkind: IdKind::Mixed, seed: format!("s{seed}.big") }).unwrap());
+            out.push(serde_json::to_value(Case { suite: suite.to_string(), n: b, t: 2, idkind: IdKind::U16x, seed: format!("s{seed}.big") }).unwrap());
+        }
         out
     }
     fn run(&self, case: &Value) -> Outcome {
@@ -204,7 +210,15 @@ fn run_case<C: Suite>(c: &Case) -> Outcome {
     }
     // every t-subset interpolates to the key and signs
     let m = message(2);
-    for sm in subsets(c.n as usize, c.t as usize, c.t as usize) {
+    let all_subsets: Vec<u32> = if c.n <= 8 {
+        subsets(c.n as usize, c.t as usize, c.t as usize)
+    } else if c.n <= 31 {
+        // big shapes: the first t, the last t
+        vec![(1u32 << c.t) - 1, ((1u32 << c.t) - 1) << (c.n - c.t)]
+    } else {
+        vec![(1u32 << c.t) - 1]
+    };
+    for sm in all_subsets {
         let sel = pick::<C>(&run.ids, sm);
         let xs: Vec<_> = sel.iter().map(|i| id_scalar::<C>(i)).collect();
         let mut acc = zero::<C>();
